@@ -470,6 +470,11 @@ def run(ctx):
             else:
                 cmds.append(("safe_trace", [p.encode() for p in st["refs_before"]], dsfs.sx_trace(st["trace"])))
                 meta.append(("safe", short, st))
+                # information (DESIGN 4.2): is the deterministic model trace (Dataset/Ops.v) exactly what the code did?
+                from harness.props.C19 import blocks_of
+                pt, rgs, mdc, cmdc, norm = blocks_of([(c[0], c[1], b"") if c[0] == "write" else c for c in st["trace"]])
+                cmds.append(("append_trace", [p.encode() for p in st["refs_before"]], 1 if pt else 0, rgs, mdc, cmdc))
+                meta.append(("model", short, norm))
                 # fresh names: every new file is referenced, every new reference is a new file
                 if "refs_after" in st:
                     newrefs = st["refs_after"][len(st["refs_before"]):]
@@ -482,7 +487,15 @@ def run(ctx):
     pq.close()
     if len(outs) != len(cmds):
         raise RuntimeError("pqref answered %d of %d commands" % (len(outs), len(cmds)))
+    model_trace = {"equal": 0, "different": 0, "examples": []}
     for (kind, short, st), o in zip(meta, outs):
+        if kind == "model":
+            mt = [[bytes(x) if isinstance(x, (bytes, bytearray)) else x for x in c] for c in o[0]] if isinstance(o, list) and o else o
+            same = mt == [[x.encode() if isinstance(x, str) else x for x in c] for c in st]
+            model_trace["equal" if same else "different"] += 1
+            if not same and len(model_trace["examples"]) < 3:
+                model_trace["examples"].append({"case": short, "model": str(mt)[:500], "recorded": str(st)[:500]})
+            continue
         if kind == "cat":
             ctx.count("categorical_reads", "dictionaries differ" if short["dictionaries_differ"] else "one dictionary")
             ctx.correspondence("CatRead.read_cat(per-row-group dictionaries and codes) = categorical column of the whole read", short,
@@ -496,6 +509,9 @@ def run(ctx):
             model = [o[0], len(o[1]), C.sha(bytes(o[1]))[:20]] if isinstance(o, list) and len(o) == 2 else o
             ctx.correspondence("append_seq(bytes before, recorded write chunks) = bytes left by the real append", short,
                                model, [st["loc"], len(st["after"]), C.sha(st["after"])[:20]])
+    ctx.extra["model_trace_vs_recorded_trace"] = model_trace
+    ctx.notes.append("Ops.append_trace equals the recorded call trace (kinds, paths, order; write data ignored) in %d of %d multi-file appends "
+                     "(information, not an obligation)" % (model_trace["equal"], model_trace["equal"] + model_trace["different"]))
 
 
 def replay(rep):
